@@ -137,7 +137,9 @@ func firstDiff(a, b string) string {
 var addrRe = regexp.MustCompile(`@[0-9a-f]+`)
 
 // sampleDump is a dump without the (run-dependent) identities of shared references.
-func sampleDump(root interface{}) string { return trunc(addrRe.ReplaceAllString(walk.Dump(root, false), ""), 500) }
+func sampleDump(root interface{}) string {
+	return trunc(addrRe.ReplaceAllString(walk.Dump(root, false), ""), 500)
+}
 
 // ---- shapes ----
 
